@@ -177,6 +177,12 @@ def rule_sorted(ctx, m):
         sorted_calls = [(t, st) for t, st, how in stores_to(fi.node)
                         if isinstance(t, ast.Name) and isinstance(getattr(st, 'value', None), ast.Call)
                         and call_name(st.value) == 'sorted']
+        if len(sorted_calls) > 1:
+            # keep the binding the index-variable writers project from
+            used = {g.iter.id for tt, s2, how in stores_to(fi.node) if isinstance(s2, ast.Assign)
+                    and 'index_group' in norm(tt) and isinstance(s2.value, ast.ListComp)
+                    for g in s2.value.generators if isinstance(g.iter, ast.Name)}
+            sorted_calls = [(t, st) for t, st in sorted_calls if t.id in used]
         if len(sorted_calls) != 1:
             ctx.undecided('C08-R2', fi, 'sorted(...)', f'expected one sorted() binding, found {len(sorted_calls)}')
         t, st = sorted_calls[0]
